@@ -90,7 +90,9 @@ def _expected_fill(cfg, name, dtype):
 def _eq(a, b) -> bool:
     if isinstance(a, (float, np.floating)) and isinstance(b, (float, np.floating)) and np.isnan(a) and np.isnan(b):
         return True
-    return bool(a == b)
+    if isinstance(a, (float, np.floating)) and isinstance(b, (float, np.floating)) and a == 0 and b == 0:
+        return bool(np.signbit(a) == np.signbit(b))
+    return bool(a == b) and (isinstance(a, (str, np.str_)) == isinstance(b, (str, np.str_)))
 
 
 def scenario(cfg, src) -> List[str]:
@@ -100,6 +102,13 @@ def scenario(cfg, src) -> List[str]:
         new = [src.lab(f'new_{j}') for j in range(n_new)]
     else:  # concrete string labels: the solver has no dimension here, equality patterns are enumerated by the caller
         old, new = list(cfg['old_labels']), list(cfg['new_labels'])
+    if cfg.get('prior') is not None:
+        # HISTORY: an earlier reindex (of another object) with fill values that compare EQUAL to this call's but are of
+        # another type (1 / True / 1.0, 0.0 / -0.0): nothing of it may leak into this call
+        o2, _ = _build(cfg, list(old))
+        with warnings.catch_warnings():
+            warnings.simplefilter('ignore')
+            o2.reindex(list(new), **cfg['prior'])
     obj, names = _build(cfg, list(old))
     before = {v: obj[v].copy() for v in names}
     kw: Dict[str, Any] = dict(cfg['fills'])
@@ -235,6 +244,13 @@ def configs(tier: str):
             for solved in (False, True):
                 out.append(cfg12(kind='model', n_old=n_old, n_new=n_new, solved=solved))
             out.append(cfg12(kind='model', n_old=n_old, n_new=n_new, fills={'status': 'F', 'iterations': 0, 'Y': 5.0}, fill_value=1))
+    for prior, now in ((dict(fill_value=1), dict(fill_value=True)), (dict(fill_value=True), dict(fill_value=1)),
+                       (dict(fill_value=1), dict(fill_value=1.0)), (dict(fill_value=0.0), dict(fill_value=-0.0)),
+                       (dict(fill_value=0), dict(fill_value=False)), (dict(S=1, F=0.0), dict(fills={'S': True, 'F': -0.0})),
+                       (dict(fill_value=2), dict(fill_value=2.0))):
+        for n_old, n_new in ((1, 2), (0, 2), (2, 3)):
+            out.append(cfg12(kind='container', n_old=n_old, n_new=n_new, prior=prior, **now))
+    out.append(cfg12(kind='model', n_old=1, n_new=2, prior=dict(status=0, Y=0.0), fills={'status': False, 'Y': -0.0}))
     for kind in ('container', 'model'):
         for strict, obj_strict in ((True, False), (False, True), (None, True), (None, False), (False, False)):
             out.append(cfg12(kind=kind, n_old=2, n_new=2, fills={'Q': 1}, strict=strict, obj_strict=obj_strict))
@@ -253,7 +269,7 @@ TWINS = [cfg12(kind='container', n_old=2, n_new=2, twin='shifted'), cfg12(kind='
 
 def finding_key(cfg, cand) -> str:
     bad = cand['replay']['bad']
-    return f"{cfg['kind']},old={cfg['n_old']},new={cfg['n_new']},fill={cfg['fill_value']},fills={cfg['fills']}:{bad[0][:80] if bad else '?'}"
+    return f"{cfg['kind']},old={cfg['n_old']},new={cfg['n_new']},fill={cfg['fill_value']},fills={cfg['fills']}{',prior=' + str(cfg['prior']) if cfg.get('prior') else ''}:{bad[0][:80] if bad else '?'}"
 
 
 def main() -> int:
